@@ -167,7 +167,7 @@ def isSane (r : Request) : Option SaneErr :=
 /-- Go types of handler parameters used by the harness (the meaning is given by `Env.decode`;
 theorems do not depend on it). -/
 inductive PType where
-  | any | int | str | bool | ptrInt | ints | vstruct | bounds
+  | any | raw | int | str | bool | ptrInt | ints | vstruct | bounds
   deriving Repr, DecidableEq, Inhabited
 
 structure Param where
@@ -297,7 +297,7 @@ def buildArguments (env : Env) (params : Option Json) (m : Method) : Except Bind
 
 /-- marker for `data` strings produced by `encoding/json` / the pretty printer / the validator
 (not modelled; the harness accepts any value there) -/
-def opaque : Json := .str "\x01?"
+def opaqueData : Json := .str "\x01?"
 
 def joinComma : List String → String
   | [] => ""
@@ -307,7 +307,7 @@ def joinComma : List String → String
 def BindErr.data : BindErr → Json
   | .missingRequired names => .str ("missing required params: " ++ joinComma names)
   | .count r t g => .str s!"expected between {r} and {t} params, got {g}"
-  | .decode => opaque
+  | .decode => opaqueData
   | .missingNamed n => .str ("missing non-optional param: " ++ n)
   | .unexpected keys => .str ("unexpected params: " ++ joinComma keys)
   | .impossible => .str "impossible param type: check request.isSane"
@@ -400,7 +400,7 @@ def finishRequest (req : Request) (o : ReqOut) : Option Response × List Call :=
 def handleEntry (cfg : Config) (env : Env) (tbl : Table) (decodeFailCode : Int) (j : Json) :
     Option Response × List Call :=
   match decodeRequest j with
-  | none => (some (errResponse decodeFailCode (some opaque)), [])
+  | none => (some (errResponse decodeFailCode (some opaqueData)), [])
   | some req => finishRequest req (handleRequest cfg env tbl req)
 
 /-! ## HandleReader -/
@@ -442,19 +442,19 @@ def handleInput (cfg : Config) (env : Env) (tbl : Table) (inp : Input) : Output 
   let single (r : Response) : Output := { body := some r.toJson, log := [] }
   if !isBatch cfg inp then
     match inp.parsed with
-    | none => single (errResponse InvalidJSON (some opaque))
+    | none => single (errResponse InvalidJSON (some opaqueData))
     | some j =>
       let (r, log) := handleEntry cfg env tbl InvalidJSON j
       { body := r.map Response.toJson, log }
   else if !cfg.batchDisabled then
     match inp.parsed with
-    | none => single (errResponse InvalidJSON (some opaque))
+    | none => single (errResponse InvalidJSON (some opaqueData))
     | some (.arr []) => single (errResponse InvalidRequest (some (.str "empty batch")))
     | some (.arr xs) =>
       let rs := batchResponses cfg env tbl xs
       { body := if rs.isEmpty then none else some (.arr (rs.map Response.toJson)),
         log := batchLog cfg env tbl xs }
-    | some _ => single (errResponse InvalidJSON (some opaque))  -- Decode(&[]RawMessage) type error
+    | some _ => single (errResponse InvalidJSON (some opaqueData))  -- Decode(&[]RawMessage) type error
   else single (errResponse InvalidRequest (some (.str "batch requests are disabled")))
 
 end Juno.C11
